@@ -234,6 +234,13 @@ def _fill_unit(x: dict, results: dict, work: str, env: dict) -> None:
                                        'clause': h.get('clause', ''), 'harness': name})
         elif r['status'] == 'FAILED':
             fails = r.get('failed_checks', [])
+            mcrash = re.search(r'CBMC failed with status \d+|CBMC timed out|out of memory|std::bad_alloc|Killed', r.get('raw', ''))
+            if mcrash or not fails:
+                # the solver died (memory ceiling, crash) or Kani reports FAILED without naming any failed check:
+                # nothing was refuted -> undecided, never an alarm
+                res['status'] = 'tool-error'
+                res['tool_error'] = f'harness {name}: solver did not finish ({mcrash.group(0) if mcrash else "FAILED without a failed check"})'
+                return
             if fails and any('not currently supported by Kani' in f or 'unsupported' in f.lower() for f in fails):
                 res['status'] = 'tool-error'
                 res['tool_error'] = f'harness {name}: construct outside Kani: {fails[0][:160]}'
